@@ -35,6 +35,7 @@ func init() {
 		Gen:          trace.GenOpts{MinRules: 1, MaxRules: 8, FailProb: 0.25, RetProb: 0.65},
 		Calls:        8,
 		PoolProb:     0.5,
+		Holds:        true,
 		UnknownNames: true,
 		BadNM:        true,
 		BadSplit:     true,
